@@ -1,4 +1,7 @@
 import LexVerif.Proof.ParseIntFormatGrammar
+import LexVerif.Proof.ParseIntFormatTotal
+import LexVerif.Proof.ParseIntFormatAgree
+import LexVerif.Proof.ParseIntFormatGrammar2
 import LexVerif.Props.C04
 import LexVerif.Props.C11Int
 import LexVerif.Model.Ops.ParseInt
@@ -23,11 +26,15 @@ C12-no-digits-accepted-as-zero).
 
 * (a) `parseIntFormat_plain_eq` / `parseIntFormat_plain_eq_spec`: on plain formats the `format` build computes exactly
   what the non-`format` build computes, hence the specification scan of C04 — C04 holds for `format` builds.
-* (b) `parseIntFormat_total_partial` (C10, release): never FAULT / PANIC, indices ≤ length; `parseIntFormat_total_full`
-  (every valid format) is the full statement; debug build: `debug_panics_suffix_separator` ("1h_").
-* (c) `int_accepts_iff_grammar_partial` (C12): the complete parser accepts iff `Spec.grammarIntComplete` derives the
-  input, with the same value; `int_accepts_iff_grammar_full` is FALSE (`not_int_accepts_iff_grammar_full`).
-* (d) `int_format_complete_iff_partial_partial` (C11 clause 1); regression I2, witnesses I3, I4.
+* (b) `parseIntFormat_total` (C10, release, every valid format): never FAULT / PANIC, indices ≤ length
+  (`parseIntFormat_total_full_holds`); debug build: `debug_panics_suffix_separator` ("1h_").
+* (c) `int_accepts_iff_grammar_prefix` (C12): contiguous integer iterator, no base suffix, base prefix /
+  `no_integer_leading_zeros` / sign flags arbitrary, digits required: the complete parser accepts iff
+  `Spec.grammarIntComplete` derives the input, with the same value (`int_accepts_iff_grammar_partial`: the sub-class
+  without prefix / leading-zero flag); with a base suffix: `int_accepts_iff_grammar_contig_full` (a `def`, exact exclusions);
+  `int_accepts_iff_grammar_full` is FALSE (`not_int_accepts_iff_grammar_full`).
+* (d) `int_format_complete_iff_partial` (C11 clause 1): EVERY valid format; regression I2, witnesses I3, I4 (clause 2).
+* (b) is `parseIntFormat_total`: EVERY valid format.
 -/
 namespace LexVerif.Props.C04Format
 open LexVerif LexVerif.Spec LexVerif.Model LexVerif.Model.ParseIntFormat LexVerif.Proof.PIF
@@ -106,34 +113,47 @@ theorem parseIntFormat_simple_spec (e : Env) (hs : SimpleFmt e.c) (ha : Admissib
 
 /-! ## (b) C10 — totality -/
 
-/-- acceptable results: `Ok` with a count inside the input, `Error::Kind(i)` with `i` inside the input; never the
-model's FAULT (unchecked step / slice / fuel) and never PANIC -/
-def Total (len : Nat) : Res → Prop
-  | .ok (_, n) => n ≤ len
-  | .error (.err _ i) => i ≤ len
-  | .error _ => False
+/-! `Total len r` (`Proof/ParseIntFormatTotal.lean`): `r` is `Ok` with a count `≤ len` or `Error::Kind(i)` with `i ≤ len`;
+never the model's FAULT (unchecked step / slice / fuel) and never PANIC. -/
 
-/-- **C10, full statement (release build)**: every format accepted by `format.is_valid()`. Proved for the
-`SimpleFmt` class (`parseIntFormat_total_partial`); for the other formats (separators, prefix, suffix, leading-zero
-flag) it rests on the correspondence (0 `fault`/`panic` in 170k release ops). -/
+/-- **C10, full statement (release build)**: every format accepted by `format.is_valid()` — separators with any of the
+15 skip predicates, base prefix, base suffix, `no_integer_leading_zeros` included. PROVED: `parseIntFormat_total`. -/
 def parseIntFormat_total_full : Prop :=
   ∀ (e : Env) (s : List Nat), e.c.feats.format = true → e.c.debug = false →
     (formatError e.c.feats e.c.fmt).isNone = true → Admissible e → (∀ b ∈ s, b < 256) →
       Total s.length (parseIntFormat e s)
+
+/-- **C10 (release) for the integer parser of `format` builds**: for every feature set, every format that passes
+`format.is_valid()`, every integer type / radix / `no_multi_digit`, complete and partial, and EVERY byte list the model
+returns `Ok` with a count `≤ length` or `Error::Kind(i)` with `i ≤ length`; the unchecked steps
+(`step_unchecked`, `step_by_unchecked`, `take_n`'s `from_parts` / `set_cursor`) stay inside the buffer, no digit loop
+runs out of fuel, the `usize` subtractions `cursor - zeros`, `cursor - 1`, `cursor - start_index` of the paths that
+use their result as an index do not wrap, `unreachable!()` is not reached. (No hypothesis on type / radix / bytes is
+needed: wrapping arithmetic is total.) -/
+theorem parseIntFormat_total (e : Env) (hd : e.c.debug = false)
+    (hv : (formatError e.c.feats e.c.fmt).isNone = true) (s : List Nat) : Total s.length (parseIntFormat e s) :=
+  parseIntFormat_total_rel (LexVerif.Proof.PNTotal.rel_of_valid e.c hd hv) s
+
+theorem parseIntFormat_total_full_holds : parseIntFormat_total_full :=
+  fun e s _ hd hv _ _ => parseIntFormat_total e hd hv s
+
+/-- non-vacuity: the format of the debug-panic witness below (prefix, suffix, separator with I+L+T+C) is valid -/
+example : (formatError { powerOfTwo := true, radix := true, format := true }
+    ⟨0x101010687800005f000002490000000c⟩).isNone = true := by decide
 
 theorem parseIntFormat_total_partial (e : Env) (hs : SimpleFmt e.c) (ha : Admissible e) (s : List Nat)
     (hb : ∀ b ∈ s, b < 256) : Total s.length (parseIntFormat e s) := by
   rw [parseIntFormat_simple_spec e hs ha s hb]
   unfold signGate
   split
-  · simp [Total, err]
+  · simp [Proof.PIF.Total, err]
   · split
-    · simp [Total, err]
+    · simp [Proof.PIF.Total, err]
     · split
-      · simp [Total]
+      · simp [Proof.PIF.Total]
       · have := C04.spec_index_le_length e.t e.radix e.partial_ s
         cases h : Spec.parseInt e.t e.radix e.partial_ s <;> simp [h, C04.PRes.index] at this <;>
-          simp [ofM, Total, err, this]
+          simp [ofM, Proof.PIF.Total, err, this]
 
 /-- radix 16, prefix `x`, suffix `h`, separator `_` with integer flags I+L+T+C (catalogue: `int_prefix_suffix_sep_iltc`) -/
 def fmtSuffixSep : Format := ⟨0x101010687800005f000002490000000c⟩
@@ -248,6 +268,145 @@ theorem int_accepts_iff_grammar_partial (c : Cfg) (t : IntTy) (nm : Bool) (hs : 
     rw [hk]
     simp [err, Except.map]
 
+/-- the sign split of the grammar is the sign the parser consumes -/
+theorem splitIntSign_eq (t : IntTy) (s : List Nat) :
+    (splitIntSign t.signed s).2 = s.drop (signLen t s) ∧
+    ((splitIntSign t.signed s).1 == some true) = decide (s.head? = some 45 ∧ t.signed = true) := by
+  cases s with
+  | nil => simp [splitIntSign, signLen, hasSign]
+  | cons x xs =>
+    by_cases h43 : x = 43
+    · subst h43; simp [splitIntSign, signLen, hasSign]
+    · by_cases h45 : x = 45
+      · subst h45
+        by_cases hsg : t.signed = true
+        · simp [splitIntSign, signLen, hasSign, hsg]
+        · simp [splitIntSign, signLen, hasSign, hsg]
+      · have : splitIntSign t.signed (x :: xs) = (none, x :: xs) := by
+          unfold splitIntSign; split <;> simp_all
+        simp [this, signLen, hasSign, h43, h45]
+
+/-- **(c) with base prefix and `no_integer_leading_zeros`**: formats with a contiguous integer iterator (no integer
+separator flags; separator byte and the other components' flags arbitrary) and WITHOUT base suffix; base prefix (not
+the byte `'0'` — `format.is_valid()` rejects digit prefixes), its case flag, `no_integer_leading_zeros`, the sign flags:
+arbitrary; digits required. For every type, radix, `no_multi_digit` and input the complete parser returns `Ok(v)` iff
+`Spec.grammarIntComplete` derives the input with value `v` — NO exclusion: without a base suffix the integer parser
+has no prefix / leading-zero defect (C12-base-prefix-swallows-leading-zero needs the suffix, see
+`witness_prefix_swallows_zero`, `witness_suffix_nolz_zero`). -/
+theorem int_accepts_iff_grammar_prefix (c : Cfg) (t : IntTy) (nm : Bool) (hs : Simple c)
+    (ha : Admissible ⟨c, t, false, nm⟩) (h48 : c.fmt.basePrefix ≠ 48)
+    (hreq : (c.fmt.requiredIntegerDigits || c.fmt.requiredMantissaDigits) = true)
+    (s : List Nat) (hb : ∀ b ∈ s, b < 256) (v : Int) :
+    complete c t nm s = .ok v ↔ grammarIntComplete c.feats c.fmt t s = .ok v := by
+  have hrd : (⟨c, t, false, nm⟩ : Env).requiredDigits = true := by rw [requiredDigits_eq c t false nm hs.hf]; exact hreq
+  have hsl : signLen t s ≤ s.length := by
+    unfold signLen hasSign; cases s <;> simp; split <;> omega
+  have hcomp : ∀ r : Res, ((r.map Prod.fst : Except Err Int) = .ok v) ↔ ∃ k, r = .ok (v, k) := by
+    intro r; cases r with
+    | error x => simp [Except.map]
+    | ok p => obtain ⟨w, k⟩ := p; simp [Except.map]
+  unfold complete
+  rw [hcomp, parseIntFormat_prefix_eq _ hs]
+  simp only [hrd, if_true]
+  unfold grammarIntComplete grammarIntSyn
+  have hy : (Syn.of c.feats c.fmt).radix = c.fmt.mantissaRadix ∧ (Syn.of c.feats c.fmt).pre = c.fmt.basePrefix ∧
+      (Syn.of c.feats c.fmt).suf = 0 ∧ (Syn.of c.feats c.fmt).csPrefix = c.fmt.caseSensitiveBasePrefix ∧
+      (Syn.of c.feats c.fmt).noIntLZ = c.fmt.noIntegerLeadingZeros ∧
+      (Syn.of c.feats c.fmt).noPosMant = c.fmt.noPositiveMantissaSign ∧
+      (Syn.of c.feats c.fmt).reqMantSign = c.fmt.requiredMantissaSign ∧
+      ((Syn.of c.feats c.fmt).reqInt || (Syn.of c.feats c.fmt).reqMant) = true := by
+    simp [Syn.of, hs.hf, hs.suf, hreq]
+  obtain ⟨hy1, hy2, hy3, hy4, hy5, hy6, hy7, hy8⟩ := hy
+  have hr2 : 2 ≤ c.fmt.mantissaRadix := by have := ha.r2; simpa [Env.radix, Cfg.mantissaRadix] using this
+  have hcs : c.caseSensitiveBasePrefix = c.fmt.caseSensitiveBasePrefix := by simp [Cfg.caseSensitiveBasePrefix, Cfg.flag, hs.hf]
+  by_cases hemp : s = []
+  · subst hemp
+    simp only [List.isEmpty_nil, if_true, signLen, hasSign, List.head?_nil, List.length_nil]
+    constructor
+    · rintro ⟨k, hk⟩
+      simp only [signGate, List.head?_nil, reduceCtorEq, false_and, if_false] at hk
+      split at hk <;> simp [err] at hk
+    · intro h; cases h
+  · have hne : s.isEmpty = false := by simpa using hemp
+    simp only [hne, Bool.false_eq_true, if_false]
+    obtain ⟨hbody, hnegeq⟩ := splitIntSign_eq t s
+    generalize hsp : splitIntSign t.signed s = sp at hbody hnegeq
+    obtain ⟨sign, body⟩ := sp
+    simp only at hbody hnegeq ⊢
+    have hgate := signGate_iff_signOk ⟨c, t, false, nm⟩ s
+    rw [hsp] at hgate
+    simp only at hgate
+    by_cases hbe : body = []
+    · -- only a sign byte: `Empty`; the grammar has no digits
+      have hlen : signLen t s = s.length := by
+        have := congrArg List.length hbody; rw [hbe] at this
+        simp only [List.length_nil, List.length_drop] at this; omega
+      subst hbe
+      simp only [hlen, if_true]
+      constructor
+      · rintro ⟨k, hk⟩
+        simp only [signGate] at hk
+        split at hk
+        · simp [err] at hk
+        · split at hk <;> simp [err] at hk
+      · intro h
+        simp [splitPrefix, takeDigits, splitSuffix, hy8] at h
+    · have hlen : signLen t s ≠ s.length := by
+        intro h; apply hbe; rw [hbody, h]; simp
+      have hlt : signLen t s < s.length := by omega
+      simp only [hlen, if_false]
+      have hg := grammar_accept (Syn.of c.feats c.fmt) t (by rw [hy1]; omega) hy3 (by rw [hy2]; exact h48) hy8 sign body hbe
+        (decide (s.head? = some 45 ∧ t.signed = true)) hnegeq.symm (by simp) v
+      rw [hg, hy1, hy2, hy4, hy5, hy6, hy7]
+      cases hok : signOk c.fmt.noPositiveMantissaSign c.fmt.requiredMantissaSign sign with
+      | true =>
+        rw [(hgate _).1 hok]
+        simp only [true_and]
+        have := afterSign_accept ⟨c, t, false, nm⟩ rfl ha.ty ha.r2 ha.r36 ha.feat
+          (decide (s.head? = some 45 ∧ t.signed = true)) (by simp) s hb (signLen t s) hlt v
+        simp only [Env.radix, Cfg.mantissaRadix, hcs] at this
+        rw [this, hbody]
+      | false =>
+        obtain ⟨k, hk⟩ := (hgate _).2 hok
+        rw [hk]
+        simp [err]
+
+def fmtPrefixXNoLZ : Format := ⟨0x1010100078000000000000000000100c⟩   -- radix 16, prefix `x`, no_integer_leading_zeros
+
+theorem prefixXNoLZ_simple : Simple ⟨featsRF, fmtPrefixXNoLZ, false⟩ := ⟨rfl, rfl, by decide, by decide⟩
+
+/-- non-vacuity of `int_accepts_iff_grammar_prefix`: `0x1f` = 31, `0x01` = 1 (leading zeros behind a prefix are
+exempt), `01` rejected by both (`InvalidLeadingZeros`), `0` = 0, `0x` rejected by both -/
+example :
+    complete ⟨featsRF, fmtPrefixXNoLZ, false⟩ ⟨32, true⟩ false [0x30, 0x78, 0x31, 0x66] = .ok 31 ∧
+    grammarIntComplete featsRF fmtPrefixXNoLZ ⟨32, true⟩ [0x30, 0x78, 0x31, 0x66] = .ok 31 ∧
+    complete ⟨featsRF, fmtPrefixXNoLZ, false⟩ ⟨32, true⟩ false [0x30, 0x78, 0x30, 0x31] = .ok 1 ∧
+    grammarIntComplete featsRF fmtPrefixXNoLZ ⟨32, true⟩ [0x30, 0x78, 0x30, 0x31] = .ok 1 ∧
+    complete ⟨featsRF, fmtPrefixXNoLZ, false⟩ ⟨32, true⟩ false [0x30, 0x31] = .error (.err "InvalidLeadingZeros" 0) ∧
+    grammarIntComplete featsRF fmtPrefixXNoLZ ⟨32, true⟩ [0x30, 0x31] = .err ∧
+    complete ⟨featsRF, fmtPrefixXNoLZ, false⟩ ⟨32, true⟩ false [0x30] = .ok 0 ∧
+    grammarIntComplete featsRF fmtPrefixXNoLZ ⟨32, true⟩ [0x30] = .ok 0 ∧
+    complete ⟨featsRF, fmtPrefixXNoLZ, false⟩ ⟨32, true⟩ false [0x30, 0x78] = .error (.err "Empty" 2) ∧
+    grammarIntComplete featsRF fmtPrefixXNoLZ ⟨32, true⟩ [0x30, 0x78] = .err := by decide
+
+/-- the body (input behind the sign) is one or more `0` followed by a base-suffix byte: the class of the open findings
+C12-base-prefix-swallows-leading-zero (integers) and "zero before the base suffix under no_integer_leading_zeros" -/
+def zerosThenSuffix (c : Cfg) (t : IntTy) (s : List Nat) : Prop :=
+  ∃ k h, 1 ≤ k ∧ isSuffixByte c h = true ∧ s.drop (signLen t s) = List.replicate k 48 ++ [h]
+
+/-- **C12 for a contiguous integer iterator WITH base suffix, full statement under the exact exclusions** (not proved;
+holds on every op of the correspondence streams): the complete parser accepts exactly the grammar unless digits are
+not required (C12-no-digits-accepted-as-zero) or a base prefix / `no_integer_leading_zeros` is combined with a base
+suffix and the body is zeros followed by the suffix (`witness_prefix_swallows_zero`, `witness_suffix_nolz_zero`).
+The suffix-free half is `int_accepts_iff_grammar_prefix`. -/
+def int_accepts_iff_grammar_contig_full : Prop :=
+  ∀ (c : Cfg) (t : IntTy) (nm : Bool) (s : List Nat) (v : Int), c.feats.format = true → c.debug = false →
+    (formatError c.feats c.fmt).isNone = true → c.sepFlags .integer = SepFlags.none →
+    Admissible ⟨c, t, false, nm⟩ → (∀ b ∈ s, b < 256) →
+    (c.fmt.requiredIntegerDigits || c.fmt.requiredMantissaDigits) = true →
+    ¬ (c.fmt.baseSuffix ≠ 0 ∧ (c.fmt.basePrefix ≠ 0 ∨ c.fmt.noIntegerLeadingZeros = true) ∧ zerosThenSuffix c t s) →
+      (complete c t nm s = .ok v ↔ grammarIntComplete c.feats c.fmt t s = .ok v)
+
 def fmtPrefixDSuffixH : Format := ⟨0xa0a0a6864000000000000000000000c⟩  -- radix 10, prefix `d`, suffix `h`
 def fmtNoReq : Format := ⟨0xa0a0a00000000000000000000000000⟩        -- radix 10, no digits required (int_noreq)
 
@@ -281,12 +440,37 @@ example : complete ⟨featsRF, fmtNoPosSign, false⟩ ⟨8, true⟩ false [0x2b,
 
 /-! ## (d) C11 — the complete and the partial parser agree -/
 
-/-- **C11 clause 1 for the `format` build, full statement**: OPEN (its former counter-example `"0"` under
-`no_integer_leading_zeros` was a defect, repaired: `regression_I2`; proved for `SimpleFmt` formats below). -/
+/-- **C11 clause 1 for the `format` build, full statement**: PROVED (`int_format_complete_iff_partial`). Its former
+counter-example `"0"` under `no_integer_leading_zeros` was a defect, repaired in /repo (`regression_I2`). -/
 def int_format_complete_iff_partial_full : Prop :=
   ∀ (c : Cfg) (t : IntTy) (nm : Bool) (s : List Nat) (v : Int), c.feats.format = true → c.debug = false →
     (formatError c.feats c.fmt).isNone = true → Admissible ⟨c, t, false, nm⟩ → (∀ b ∈ s, b < 256) →
       (complete c t nm s = .ok v ↔ partial_ c t nm s = .ok (v, s.length))
+
+/-- **C11 clause 1, integers, `format` builds — every valid format** (digit separators with any flags, base prefix,
+base suffix, `no_integer_leading_zeros`, any sign / digit flags), every type, radix, `no_multi_digit`, every byte list,
+release build: the complete parser returns `Ok(v)` iff the partial parser returns `Ok((v, length))`.
+Proof (`Proof/ParseIntFormatAgree.lean`): the two parsers are one macro body and differ only in `invalid_digit!`; they
+run in lockstep until its first call, where complete returns `Err` and partial `Ok((_, i))` with `i < length` (cursor
+inside the buffer, `Proof/ParseIntFormatTotal.lean`); every other `Ok` carries the buffer length. -/
+theorem int_format_complete_iff_partial (c : Cfg) (t : IntTy) (nm : Bool) (hd : c.debug = false)
+    (hv : (formatError c.feats c.fmt).isNone = true) (s : List Nat) (v : Int) :
+    complete c t nm s = .ok v ↔ partial_ c t nm s = .ok (v, s.length) := by
+  have h := (parseIntFormat_agree (t := t) (nm := nm) (LexVerif.Proof.PNTotal.rel_of_valid c hd hv) s).iff v
+  unfold complete partial_
+  rw [← h]
+  cases parseIntFormat ⟨c, t, false, nm⟩ s with
+  | error x => simp [Except.map]
+  | ok p => obtain ⟨w, k⟩ := p; simp [Except.map]
+
+theorem int_format_complete_iff_partial_full_holds : int_format_complete_iff_partial_full :=
+  fun c t nm s v _ hd hv _ _ => int_format_complete_iff_partial c t nm hd hv s v
+
+/-- non-vacuity on a format with everything at once (prefix `x`, suffix `h`, separator `_` I+L+T+C): `"0x1_fh"` -/
+example : complete ⟨{ powerOfTwo := true, radix := true, format := true }, ⟨0x101010687800005f000002490000000c⟩, false⟩
+      ⟨32, true⟩ false [0x30, 0x78, 0x31, 0x5f, 0x66, 0x68] = .ok 31 ∧
+    partial_ ⟨{ powerOfTwo := true, radix := true, format := true }, ⟨0x101010687800005f000002490000000c⟩, false⟩
+      ⟨32, true⟩ false [0x30, 0x78, 0x31, 0x5f, 0x66, 0x68] = .ok (31, 6) := by decide
 
 /-- **C11 clause 2 for the `format` build, full statement** (a digit was consumed): FALSE (`witness_I3`, `witness_I4`). -/
 def int_format_partial_prefix_full : Prop :=
@@ -294,9 +478,9 @@ def int_format_partial_prefix_full : Prop :=
     (formatError c.feats c.fmt).isNone = true → Admissible ⟨c, t, false, nm⟩ → (∀ b ∈ s, b < 256) →
       partial_ c t nm s = .ok (v, n) → signLen t s < n → complete c t nm (s.take n) = .ok v
 
-/-- **(d) proved part — clause 1 under the weakest hypothesis found**: every `SimpleFmt` format (any sign flags, digits
-required or not). The three excluded ingredients each have a counter-example below: `no_integer_leading_zeros` (not proved; its former counter-example I2 is repaired),
-base suffix (I3, clause 2), base prefix (I4, clause 2); separator formats: C11-partial-count-includes-trailing-separator. -/
+/-- clause 1 on `SimpleFmt` formats through the characterisation (superseded by `int_format_complete_iff_partial`, kept: it
+does not go through the lockstep argument but through the specification scan). Clause 2 is false for base suffix (I3)
+and base prefix (I4), and for separator formats (C11-partial-count-includes-trailing-separator). -/
 theorem int_format_complete_iff_partial_partial (c : Cfg) (t : IntTy) (nm : Bool) (hs : SimpleFmt c)
     (ha : Admissible ⟨c, t, false, nm⟩) (s : List Nat) (hb : ∀ b ∈ s, b < 256) (v : Int) :
     complete c t nm s = .ok v ↔ partial_ c t nm s = .ok (v, s.length) := by
